@@ -31,20 +31,21 @@ const (
 )
 
 type cfgT struct {
-	name       string
-	props      string     // which checks run this scenario
-	proto      int
-	callers    [][]string // per caller its operations: "q" query, "Q" query with a 300-byte value, "b" request whose frame fails to build
-	freeIDs    int        // >0: leave only this many stream ids free (v2 only)
-	canceller  int        // >=0: a thread cancels this caller's context at an arbitrary point
-	closer     bool       // a thread calls Conn.Close() at an arbitrary point
-	writeFault string     // "", "some" (cut at 0, 1, n/2, n-1), "all" (every offset)
-	blockWrite bool       // a write may block until the write deadline
-	coalesce   bool
-	fates      []string // fates the node may choose per request (first = default): reply late never error drop cuthdr cutbody
-	heartbeat  bool     // horizon past the first heartbeat tick
-	closeErr   bool     // the transport's Close returns an error
-	t          [2]int   // total deviation bound quick / thorough
+	name         string
+	props        string // which checks run this scenario
+	proto        int
+	callers      [][]string // per caller its operations: "q" query, "Q" query with a 300-byte value, "b" request whose frame fails to build
+	freeIDs      int        // >0: leave only this many stream ids free (v2 only)
+	canceller    int        // >=0: a thread cancels this caller's context at an arbitrary point
+	closer       bool       // a thread calls Conn.Close() at an arbitrary point
+	writeFault   string     // "", "some" (cut at 0, 1, n/2, n-1), "all" (every offset)
+	blockWrite   bool       // a write may block until the write deadline
+	coalesce     bool
+	fates        []string // fates the node may choose per request (first = default): reply late never error drop cuthdr cutbody
+	heartbeat    bool     // horizon past the first heartbeat tick
+	closeErr     bool     // the transport's Close returns an error
+	timeoutLimit int64    // gocql.TimeoutLimit (deprecated knob: close the connection after that many timeouts)
+	t            [2]int   // total deviation bound quick / thorough
 }
 
 type labelKey struct{}
@@ -216,6 +217,7 @@ func (c *cfgT) nops() int {
 
 func (c *cfgT) body(prop string) {
 	gocql.VerifResetGlobals()
+	gocql.TimeoutLimit = c.timeoutLimit
 	vatomic.Yield = false // the stream-id allocator's atomic steps are explored by C08
 	w := &world{cfg: c, prop: prop, fateOf: map[string]string{}}
 	w.node = vnode.New("n1", net.IPv4(10, 0, 0, 1), 9042, vnode.Basic(w.handler))
@@ -623,6 +625,9 @@ func connScenarios() []*cfgT {
 		{name: "v2-3x2-free1-late", props: "C01", proto: 2, callers: [][]string{q(2), q(2), q(2)}, freeIDs: 1, canceller: -1, fates: rln, t: [2]int{2, 4}},
 		// C06
 		{name: "v4-buildfail-cancel", props: "C06", proto: 4, callers: [][]string{{"b", "q"}, {"q", "b"}}, canceller: 1, fates: rln, t: [2]int{3, 4}},
+		{name: "v2-buildfail-free1", props: "C06", proto: 2, callers: [][]string{{"b", "q"}, {"q", "q"}}, freeIDs: 1, canceller: -1, fates: rln, t: [2]int{2, 3}},
+		{name: "v2-buildfail-free2-3callers", props: "C06", proto: 2, callers: [][]string{{"b", "b"}, {"q"}, {"q", "b"}}, freeIDs: 2, canceller: -1, fates: []string{"reply", "late"}, t: [2]int{2, 3}},
+		{name: "v4-timeoutlimit1", props: "C06", proto: 4, callers: [][]string{q(2), q(1)}, canceller: -1, timeoutLimit: 1, fates: []string{"never", "reply", "late"}, t: [2]int{2, 3}},
 		{name: "v4-closer-2x2", props: "C06", proto: 4, callers: [][]string{q(2), q(2)}, canceller: -1, closer: true, fates: rln, t: [2]int{3, 4}},
 		{name: "v4-closer-coalesce", props: "C06", proto: 4, callers: [][]string{q(2), q(1)}, canceller: -1, closer: true, coalesce: true, fates: rln, t: [2]int{2, 4}},
 		{name: "v4-node-cuts-reply", props: "C06", proto: 4, callers: [][]string{q(2), q(1)}, canceller: -1, fates: []string{"reply", "cuthdr", "cutbody", "drop", "late"}, t: [2]int{3, 4}},
